@@ -120,7 +120,17 @@ impl AffineRepr for AffinePoint {
     }
 
     fn from_random_bytes(bytes: &[u8]) -> Option<Self> {
-        EdwardsAffine::from_random_bytes(bytes).map(|inner| AffinePoint { inner })
+        EdwardsAffine::from_random_bytes(bytes)
+            .map(|inner| AffinePoint { inner })
+            .filter(|point| {
+                // The generic constructor returns any point of the curve; only points
+                // in the image of decoding are valid decaf377 representatives.
+                let element: Element = point.into();
+                element
+                    .vartime_compress()
+                    .vartime_decompress()
+                    .map_or(false, |decoded| decoded == element)
+            })
     }
 
     fn mul_bigint(&self, other: impl AsRef<[u64]>) -> Self::Group {
